@@ -30,7 +30,7 @@ func runStandin(eng *Engine, sd BoundedStandin, tier, prop, replayDir string, op
 	defer cancel()
 	cmd := exec.CommandContext(ctx, "go", "test", "-v", "-overlay", ovFile, "-vet=off", "-count=1", "-timeout", "25m", "-run", sd.Run, ".")
 	cmd.Dir = filepath.Join(repo, sd.PkgDir)
-	cmd.Env = append(os.Environ(), "GOFLAGS=-mod=mod", "GOPROXY=off", "GOSUMDB=off", "GOTOOLCHAIN=local", "VERIF_TIER="+tier)
+	cmd.Env = append(os.Environ(), "GOFLAGS=-mod=mod", "GOPROXY=off", "GOSUMDB=off", "GOTOOLCHAIN=local", "GOGC=1000", "VERIF_TIER="+tier)
 	var out bytes.Buffer
 	cmd.Stdout, cmd.Stderr = &out, &out
 	t0 := time.Now()
@@ -223,6 +223,18 @@ func report(eng *Engine, prop, tier string, seed int, verif, outDir string, cfg 
 		frameInfo["checked_syntactically"] = checked
 		frameInfo["assumed"] = assumed
 	}
+	copyInfo := map[string]string{}
+	for _, tn := range cfg.CopyEndpoints {
+		verdict := copyUpgrade(eng, tn)
+		copyInfo[tn] = "no ReadFrom / WriteTo method: io.Copy uses Read and Write (go/types method set)"
+		if verdict != "" {
+			copyInfo[tn] = verdict
+			name := tn + "#copy#io.Copy-uses-Read-and-Write"
+			path := filepath.Join(replayDir, trunc(reSafeName.ReplaceAllString(name, "_"), 120)+".txt")
+			os.WriteFile(path, []byte(fmt.Sprintf("property: %s\nobligation: %s\nThe contracts of this check describe what the type does in Read / Write; %s. No contract covers that method, so what the copy does is undecided.\nno-failing-input-found\n", prop, name, verdict)), 0o644)
+			violations = append(violations, fmt.Sprintf("VIOLATION property=%s replay=%s obligation=%s status=undecided no-failing-input-found", prop, path, name))
+		}
+	}
 	coverFail := 0
 	for _, c := range covers {
 		solverSecs += c.Secs
@@ -303,6 +315,7 @@ func report(eng *Engine, prop, tier string, seed int, verif, outDir string, cfg 
 		"not_covered":                             cfg.NotCovered,
 		"bounded_standins":                        standinRes,
 		"frame_declarations":                      frameInfo,
+		"copy_endpoints":                          copyInfo,
 		"contract_files":                          eng.contractFiles,
 		"callee_contracts_used":                   sortedKeys(calleeContracts),
 	}
